@@ -226,7 +226,7 @@ class Deviate(Factory, Container):
             self.mean = float("nan")
             self.varianceTimesEntries = float("nan")
 
-        elif ca_plus_cb > 0.0:
+        elif ca_plus_cb > ca:  # the batch contributed weight (else nothing changes and the mean of no rows is undefined)
             cb = ca_plus_cb - ca
             mb = numpy.average(q, weights=weights)
             sb = cb * numpy.average((q - mb) * (q - mb), weights=weights)
